@@ -223,8 +223,8 @@ Proof.
     intros Hin. apply str_mem_In in Hin. congruence.
 Qed.
 
-(* with unique method names (every method set has them) "the last eligible method of that name" is "the eligible method of that name" *)
-Lemma find_rev_unique {A} (f : A -> bool) (key : A -> string) l x :
+(* with unique method identities (every method set has them) "the last eligible method of that name" is "the eligible method of that name" *)
+Lemma find_rev_unique {A K} (f : A -> bool) (key : A -> K) l x :
   NoDup (map key l) -> In x l -> f x = true -> (forall y, f y = true -> In y l -> key y = key x) -> find f (rev l) = Some x.
 Proof.
   intros Hnd Hin Hf Hkey.
@@ -244,19 +244,21 @@ Definition in_mset (td : type_decl) (require_ptr : bool) (tm : tmethod) : Prop :
   In tm (td_methods td) /\ (require_ptr = true \/ tm_value tm = true).
 
 Theorem method_ok_spec td require_ptr im :
-  NoDup (map tm_name (td_methods td)) ->
+  NoDup (map tm_id (td_methods td)) ->
   (method_ok td require_ptr im = true <->
-   exists tm, in_mset td require_ptr tm /\ tm_name tm = im_name im /\ signatures_match (tm_sig tm) (im_sig im) = true).
+   exists tm, in_mset td require_ptr tm /\ tm_id tm = im_id im /\ signatures_match (tm_sig tm) (im_sig im) = true).
 Proof.
   intros Hnd. unfold method_ok, lookup_method. split.
   - destruct (find _ (rev (td_methods td))) as [tm|] eqn:E; [|discriminate].
     intros Hm. apply find_some in E. destruct E as [Hin He]. apply in_rev in Hin. apply andb_true_iff in He. destruct He as [H1 H2].
-    exists tm. split; [split; [exact Hin|unfold eligible in H1; apply orb_true_iff in H1; exact H1]|]. split; [apply String.eqb_eq; exact H2|exact Hm].
-  - intros [tm [[Hin Hel] [Hn Hm]]].
-    rewrite (find_rev_unique (fun m => eligible require_ptr m && String.eqb (tm_name m) (im_name im)) tm_name (td_methods td) tm Hnd Hin).
+    apply andb_true_iff in H2. destruct H2 as [H2 H3]. apply String.eqb_eq in H2, H3.
+    exists tm. split; [split; [exact Hin|unfold eligible in H1; apply orb_true_iff in H1; exact H1]|]. split; [unfold tm_id, im_id; congruence|exact Hm].
+  - intros [tm [[Hin Hel] [Hn Hm]]]. unfold tm_id, im_id in Hn. injection Hn as Hp Hn.
+    rewrite (find_rev_unique (fun m => eligible require_ptr m && (String.eqb (tm_pkg m) (im_pkg im) && String.eqb (tm_name m) (im_name im))) tm_id (td_methods td) tm Hnd Hin).
     + exact Hm.
-    + unfold eligible. apply andb_true_iff. split; [apply orb_true_iff; exact Hel|apply String.eqb_eq; exact Hn].
-    + intros y Hy _. apply andb_true_iff in Hy. destruct Hy as [_ Hy]. apply String.eqb_eq in Hy. congruence.
+    + unfold eligible. apply andb_true_iff. split; [apply orb_true_iff; exact Hel|]. apply andb_true_iff. split; apply String.eqb_eq; assumption.
+    + intros y Hy _. apply andb_true_iff in Hy. destruct Hy as [_ Hy]. apply andb_true_iff in Hy. destruct Hy as [Hy1 Hy2].
+      apply String.eqb_eq in Hy1, Hy2. unfold tm_id. congruence.
 Qed.
 
 (* the listed methods: exactly the interface's methods, in the interface's order, that have no counterpart *)
